@@ -388,6 +388,7 @@ def lean_optdag(ctx, items):
             ctx.count("optdag:covered-by-optimizeDag_sound(side conditions hold, pure node language)")
         elif r.get("good_run"):
             ctx.count("optdag:outside-the-pure-node-language(in-place nodes, multi-output casts, nested graphs)")
+        ctx.count("optdag:side-condition-of-pass_terminates(topological order, every pass):" + ("holds" if r.get("fuel_run") else "fails"))
         ctx.count("optdag:side-conditions-of-optimizeDag_sound:" + ("hold" if r.get("good_run") else
                   "fail:" + ("top-level-graph-inlined" if not r.get("no_top_inline") else "top-not-a-wellformed-graph" if not r.get("wf_top") else "later-pass")))
         ctx.extra["optdag_structurally_equal"] = ctx.extra.get("optdag_structurally_equal", 0) + 1
